@@ -1,0 +1,15 @@
+//go:build verif
+
+package user
+
+import "crypto/rsa"
+
+// VerifSwapServicesKey replaces the embedded services key by a test key and
+// returns a function restoring it. It exists so that the verification
+// monitors can show that a GENUINE signature is accepted (nobody outside
+// Mojang holds the real private key). Build tag "verif" only.
+func VerifSwapServicesKey(k *rsa.PublicKey) (restore func()) {
+	old := pubKey
+	pubKey = k
+	return func() { pubKey = old }
+}
